@@ -106,10 +106,12 @@ class FaultyObserver(RecObserver):
 class Installed:
     """Context manager: auditok.workers.Queue -> SchedQueue, Worker.start/join -> scheduled."""
 
-    def __init__(self, sched, line_p=0.0, line_rng=None):
+    def __init__(self, sched, line_p=0.0, line_rng=None, gran="line", scope="workers"):
         self.sched = sched
         self.line_p = line_p
         self.line_rng = line_rng
+        self.gran = gran  # "line": statement starts; "instr": every bytecode instruction (races inside one statement)
+        self.scope = scope  # "workers": auditok/workers.py; "all": every auditok module the threads execute
         self.counter = 0
         self.lines_seen = set()
         self.preemptions = 0
@@ -180,11 +182,20 @@ class Installed:
         sched = self.sched
         codes = []
 
+        import auditok.core
+        import auditok.io
+        import auditok.signal
+        import auditok.util
+
+        modules = [W] if self.scope == "workers" else [W, auditok.core, auditok.util, auditok.io, auditok.signal]
+        files = {m.__file__ for m in modules}
+        names = {m.__name__ for m in modules}
+
         def collect(obj, seen):
             import types
 
             if isinstance(obj, types.FunctionType):
-                if obj.__code__.co_filename == W.__file__:
+                if obj.__code__.co_filename in files:
                     walk(obj.__code__)
             elif isinstance(obj, type):
                 for v in vars(obj).values():
@@ -203,20 +214,23 @@ class Installed:
                     walk(c)
 
         seen = set()
-        for v in vars(W).values():
-            if getattr(v, "__module__", None) == W.__name__:
-                collect(v, seen)
+        for m in modules:
+            for v in list(vars(m).values()):
+                if getattr(v, "__module__", None) in names:
+                    collect(v, seen)
         self.codes = codes
+        self.event = mon.events.INSTRUCTION if self.gran == "instr" else mon.events.LINE
 
         def on_line(code, line):
-            inst.lines_seen.add(line)
+            # line = line number (LINE) or instruction offset (INSTRUCTION); either way a distinct pre-emption site
+            inst.lines_seen.add((code.co_filename, code.co_firstlineno, line) if inst.scope != "workers" or inst.gran == "instr" else line)
             if inst.line_rng.random() < inst.line_p and sched.managed() and sched.me() is sched.current:
                 inst.preemptions += 1
                 sched.yield_point("line")
 
-        mon.register_callback(self.tool, mon.events.LINE, on_line)
+        mon.register_callback(self.tool, self.event, on_line)
         for c in codes:
-            mon.set_local_events(self.tool, c, mon.events.LINE)
+            mon.set_local_events(self.tool, c, self.event)
 
     def __exit__(self, *a):
         try:
@@ -224,7 +238,7 @@ class Installed:
                 mon = sys.monitoring
                 for c in self.codes:
                     mon.set_local_events(self.tool, c, 0)
-                mon.register_callback(self.tool, mon.events.LINE, None)
+                mon.register_callback(self.tool, self.event, None)
                 mon.free_tool_id(self.tool)
             W.Queue = self.orig_queue
             for attr, orig in (("start", self.orig_start), ("join", self.orig_join)):
@@ -242,13 +256,13 @@ class Installed:
             _install_lock.release()
 
 
-def run_scheduled(script, strategy, step_cap=20000, line_p=0.0, line_rng=None, wall_cap_s=60.0):
+def run_scheduled(script, strategy, step_cap=20000, line_p=0.0, line_rng=None, wall_cap_s=60.0, gran="line", scope="workers"):
     """script(sched) is executed by the calling thread (the scheduled 'main').
     -> (sched, info) where info holds abort/exception data; never raises for
     a verdict, only for harness bugs."""
     sched = Scheduler(strategy, step_cap=step_cap, wall_cap_s=wall_cap_s)
     info = {"script_exception": None, "lines_seen": 0, "line_preemptions": 0}
-    inst = Installed(sched, line_p, line_rng)
+    inst = Installed(sched, line_p, line_rng, gran, scope)
     with inst:
         sched.adopt_current("main")
         try:
